@@ -233,6 +233,7 @@ func checkC08(c *Ctx, r *Report) {
 		// remainder flush after the loop: a Write of workSpace[:workPos] that is not inside any loop
 		loops := naturalLoops(f)
 		flushed := false
+		narrowed := ""
 		for _, w := range callsIn(f, "iface.Write", false) {
 			inLoop := false
 			for _, l := range loops {
@@ -246,9 +247,54 @@ func checkC08(c *Ctx, r *Report) {
 			sl := backSlice(c, w.Common().Args[0], 0)
 			if sliceHas(sl, "param", "workSpace") {
 				flushed = true
+				// the remainder is written whenever there is one: the only conditions on the write are tests against 0
+				// (buffer non-empty) and error tests
+				for _, cond := range controlConds(w.Block()) {
+					if isErrorTest(cond) {
+						continue
+					}
+					// preconditions of the whole function (the other arm returns an error) and the exit tests of the loops
+					// before it are not conditions on the flush
+					pre := false
+					if cond.Referrers() != nil {
+						for _, ref := range *cond.Referrers() {
+							if ifi, ok := ref.(*ssa.If); ok {
+								for _, l := range loops {
+									if l.header == ifi.Block() {
+										pre = true
+									}
+								}
+								if blockRejects(ifi.Block().Succs[0]) || blockRejects(ifi.Block().Succs[1]) {
+									pre = true
+								}
+							}
+						}
+					}
+					if pre {
+						continue
+					}
+					v := cond
+					if u, ok := v.(*ssa.UnOp); ok && u.Op == token.NOT {
+						v = u.X
+					}
+					bo, ok := v.(*ssa.BinOp)
+					zero := false
+					if ok {
+						for _, o := range []ssa.Value{bo.X, bo.Y} {
+							if cs, isC := constSet(o, 0); isC && len(cs) == 1 && cs[0] == 0 {
+								zero = true
+							}
+						}
+					}
+					if !zero {
+						narrowed = "at " + c.Pos(w.Pos())
+					}
+				}
 			}
 		}
-		if flushed {
+		if flushed && narrowed != "" {
+			r.Bad("O-FLUSH", "mp4.File.CopySampleData:remainder", c.Pos(f.Pos()), narrowed+": the remainder of the work buffer is written only under a further condition besides `there are buffered bytes`: a buffer that is exactly full when the last chunk has been read is never written")
+		} else if flushed {
 			r.OK("O-FLUSH", "mp4.File.CopySampleData:remainder", c.Pos(f.Pos()), "the remainder of the work buffer is written after the chunk loop")
 		} else {
 			r.Bad("O-FLUSH", "mp4.File.CopySampleData:remainder", c.Pos(f.Pos()), "the remainder of the work buffer is never written after the chunk loop: trailing bytes are lost")
